@@ -1,7 +1,38 @@
-import Driver.Util
-open Lean
+import Driver.ProgJson
+import Heph.Model.TransJava
+/-! op "trans.java": {tt, lang, decls, context, ctxvals, package, history?} → text of the
+    `JavaTranslator` model.  `ctxvals` is parallel to `context`: the header-form declaration
+    registered under that entry (`null` for Python `None` and for `types` entries).
+    `history` (optional): a list of earlier programs `{tt, decls, context, ctxvals, package}`
+    translated first on the same translator state. -/
+open Lean Heph
 namespace Driver.TransJava
 
-def handle : Handler := fun _ _ => none
+def parseEnv (tbl : Array Ty) (p : Program) (j : Json) : Except String TransJava.Env := do
+  let vals ← match j.getObjVal? "ctxvals" with
+    | .error _ => pure (p.context.map fun _ => (none : Option Node))
+    | .ok a => (← a.getArr?).toList.mapM fun x =>
+        if x.isNull then pure none else do pure (some (← parseNode tbl x))
+  if vals.length != p.context.length then throw "ctxvals must be parallel to context"
+  pure { entries := (p.context.zip vals).map fun (c, v) => { ns := c.ns, kind := c.kind, name := c.name, val := v } }
+
+def parseOne (j : Json) : Except String (TransJava.Env × String × List Node) := do
+  let (tbl, p) ← parseProgramObj j
+  let env ← parseEnv tbl p j
+  let pkg := match j.getObjValAs? String "package" with | .ok s => s | .error _ => ""
+  pure (env, pkg, p.decls)
+
+def handle : Handler := fun op j =>
+  match op with
+  | "trans.java" => some (do
+      let (env, pkg, decls) ← parseOne j
+      let hist ← match j.getObjVal? "history" with
+        | .error _ => pure []
+        | .ok h => (← h.getArr?).toList.mapM parseOne
+      let st := hist.foldl (fun st (e, pk, ds) => (TransJava.visitProgram e pk st ds).1) TransJava.St.init
+      let (st', text) := TransJava.visitProgram env pkg st decls
+      pure (Json.mkObj [("r", Json.str text), ("fuel", Json.num (JsonNumber.fromNat (TransJava.fuelOf decls))),
+                        ("reset", Json.bool (st'.ident == 0 && st'.xCounter == 0 && st'.mainChildren.isEmpty))]))
+  | _ => none
 
 end Driver.TransJava
